@@ -274,6 +274,7 @@ def gen_cases(ctx):
                            drop=['code_listed2', 'exc_listed2', 'exc_sub', 'exc_unlisted', 'code_unlisted'],
                            client_strategy=dict(attempts=n, codes='one', excs='one', backoff=spec))
     yield from gen_repeat(ctx)
+    yield from gen_churn(ctx)
     # (E) failures raised by the client itself while reading the answer (not JSON, not a response, identity mismatch) are attempts
     #     that ended in an exception like any other: re-sent iff the exception type is listed
     for n in (0, 1, 2):
@@ -288,6 +289,12 @@ def gen_cases(ctx):
             for kind in ('sync', 'async'):
                 yield dict(part='C', placement=name, kind=kind, request=rk, via='send', drop=['code_listed2', 'level_listed2', 'exc_listed2'],
                            client_strategy=cs, request_strategy=rs)
+
+
+def gen_churn(ctx):
+    for kind in ('sync', 'async'):
+        for pattern in ('cycle', 'mixed'):
+            yield dict(part='churn', kind=kind, pattern=pattern, rounds=ctx.pick(4, 12))
 
 
 def gen_repeat(ctx):
@@ -382,9 +389,68 @@ def run_physical(cfg, rec):
     return leaves
 
 
+def run_churn(cfg, rec):
+    """short-lived per-request strategies on ONE long-lived client: each request is made with a strategy object of its own (created for the
+    request, dropped afterwards, so that the next one may live at the same address) listing ITS code / exception; request k must be re-sent
+    exactly as strategy k prescribes, whatever the strategies before it listed"""
+    import gc
+    import json as _json
+    from mc.harness.client import make_client
+    from mc.harness.client import run as drive
+    from mc import sleeplog
+    kind = cfg['kind']
+    state = dict(fault=None, left=0, sends=0)
+
+    class EA(Exception):
+        pass
+
+    class EB(Exception):
+        pass
+
+    def responder(text, is_notif, kw):
+        state['sends'] += 1
+        doc = _json.loads(text)
+        if state['left'] > 0:
+            state['left'] -= 1
+            if isinstance(state['fault'], int):
+                return _json.dumps({'jsonrpc': '2.0', 'id': doc['id'], 'error': {'code': state['fault'], 'message': 'try again'}})
+            raise state['fault']('transient')
+        return _json.dumps({'jsonrpc': '2.0', 'id': doc['id'], 'result': 'done'})
+    client = make_client(kind, responder)
+    plans = [(dict(codes={2000}), 2000), (dict(codes={2001}), 2001), (dict(exceptions={EA}), EA), (dict(exceptions={EB}), EB), (dict(codes={2001}), 2000), (dict(exceptions={EA}), EB)]
+    order = [plans[i % len(plans)] for i in range(cfg['rounds'] * len(plans))] if cfg['pattern'] == 'cycle' else [plans[(i * 5 + i // 3) % len(plans)] for i in range(cfg['rounds'] * len(plans))]
+    bad = None
+    for k, (lists, fault) in enumerate(order):
+        listed = (fault in lists.get('codes', ())) or (not isinstance(fault, int) and fault in lists.get('exceptions', ()))
+        state.update(fault=fault, left=2, sends=0)
+        sleeplog.take()
+        strategy = cr.R.RetryStrategy(backoff=cr.R.PeriodicBackoff(attempts=3, interval=0.5), **lists)
+        out = drive(kind, lambda: client.send(cr.Request('m', [k], id=k + 1), _retry_strategy=strategy))
+        del strategy
+        gc.collect()
+        rec.transitions += state['sends']
+        want_sends = 3 if listed else 1
+        pauses = [round(x[1], 6) for x in sleeplog.take()]
+        ok = state['sends'] == want_sends and pauses == [0.5] * (want_sends - 1)
+        if ok and listed:
+            ok = out[0] == 'ok' and getattr(out[1], 'result', None) == 'done'
+        if not ok and bad is None:
+            bad = (k, dict(lists={a: sorted(getattr(x, '__name__', x) for x in b) for a, b in lists.items()}, fault=getattr(fault, '__name__', fault)), want_sends, state['sends'], pauses)
+    if bad:
+        rec.violation('C09:churn:a request was not re-sent as its own per-request strategy lists (strategy objects come and go on one client)', dict(cfg, request=bad[0], strategy=bad[1]),
+                      expected='%d sends' % bad[2], observed=dict(sends=bad[3], pauses=bad[4]))
+    rec.traces += len(order)
+    rec.states += len(order)
+    rec.nontrivial_n += len(order)
+    rec.counters['part churn'] += len(order)
+    return bad is None
+
+
 def run_case(cfg, rec):
     if cfg.get('part') == 'F':
         return run_physical(cfg, rec)
+    if cfg.get('part') == 'churn':
+        return run_churn(cfg, rec)
     leaves = 0
     summary = []
     for choices, obs in explore_choices(lambda env: cr.execute(cfg, env), max_exec=200000):
